@@ -26,6 +26,7 @@ const (
 // critical or not, each with its own outcome: acknowledged, error reply, undeliverable, silent.
 // It succeeds if and only if every critical task acknowledged it; failures of non-critical tasks never make
 // it fail; with nothing to command it succeeds at once.
+//
 //verif:entry HarnessTransitionTasks unwind=16 timers=lazy preempt=1 reach=ok,failed,empty stub=github.com/AliceO2Group/Control/common/utils.TimeTrack
 //verif:thorough HarnessTransitionTasks preempt=1 paths=1000000
 func HarnessTransitionTasks() {
@@ -84,6 +85,7 @@ func HarnessTransitionTasks() {
 // manager's class cache, which every workflow load cleans up (entries past their time-to-live whose class no task
 // in the roster uses any more). A single critical task answering with an error fails the transition whether or
 // not a cleanup ran before and however old its cache entry is.
+//
 //verif:entry HarnessCriticalTraitSurvivesClassCleanup unwind=16 timers=lazy preempt=1 reach=cleaned,untouched stub=github.com/AliceO2Group/Control/common/utils.TimeTrack
 func HarnessCriticalTraitSurvivesClassCleanup() {
 	env := uid.ID("2oDvieFrVTi")
